@@ -50,15 +50,13 @@ type c12sScenario struct {
 	Closer       []string   `json:"closer,omitempty"`
 }
 
-// retries: with two clients two requests can sit in one pending map; close()
-// and gc iterate that map in Go's randomised order, which the scheduler cannot
-// own. Only for these scenarios a diverging re-execution is retried.
-func (s *c12sScenario) retries() int {
-	if len(s.Clients) > 1 {
-		return 512
-	}
-	return 0
-}
+// retries: when two requests sit in one pending map, close() and gc iterate
+// that map in Go's randomised order, which the scheduler cannot own. A
+// re-execution that diverges from the recorded run for that reason is retried
+// (the reversed order of two entries has probability 1/8 per try); the number
+// of retries is reported (0 for the single-client scenarios on a correct
+// tree). Persistent divergence is still a hard harness error.
+func (s *c12sScenario) retries() int { return 512 }
 
 func (s *c12sScenario) threads() int {
 	n := len(s.Clients)
@@ -84,6 +82,10 @@ var (
 	c12sCR1 = []string{"R", "a", "r"}
 	c12sCPR = []string{"P", "a", "r", "R", "a"}
 	c12sCRP = []string{"R", "a", "r", "P", "a"}
+	// x = Release() BEFORE the result was received (must be a no-op unless the
+	// result already sits in the channel); the request is not awaited afterwards
+	c12sCPx = []string{"P", "x", "P", "a"}
+	c12sCRx = []string{"R", "x", "R", "a"}
 	c12sCC2 = []string{"C", "a", "C", "a"}
 	c12sCS2 = []string{"S", "a", "S", "a"}
 )
@@ -113,6 +115,13 @@ func c12sScenarios(thorough bool) []c12sScenario {
 				}
 			}
 		}
+	}
+	// premature Release
+	for _, k := range cl {
+		add("premature", false, [][]string{c12sCPx}, []string{"hp"}, nil, []string{"ap", "ap"}, k)
+		add("premature", false, [][]string{c12sCPx}, []string{"hp", "tg"}, nil, []string{"ap"}, k)
+		add("premature", false, [][]string{c12sCRx}, []string{"hr", "rr"}, nil, nil, k)
+		add("premature", false, [][]string{c12sCRx}, []string{"hr", "rr"}, nil, []string{"ar"}, k)
 	}
 	// proposals, NotifyCommit on: the commit worker is a thread of its own
 	for _, c := range [][]string{c12sCP2, c12sCP1} {
@@ -193,6 +202,7 @@ type c12sReq struct {
 	results    []c12sResult
 	committed  []int // seqs of Committed notifications received
 	releaseSeq int   // seq of the Release() call (0 = never)
+	premature  int   // seq of a Release() call made before the result was received
 	taken      int   // seq when the stepper took it from the incoming queue / channel
 	batch      int   // reads: index of the batch it was added to (-1 = none)
 	batchAdded int   // seq when add() of its batch completed
@@ -397,6 +407,15 @@ func (w *c12sWorld) clientBody(ci int, prog []string) func() {
 					panic("harness: result vanished")
 				}
 				w.mu.Unlock()
+			case "x":
+				if cur == nil {
+					continue
+				}
+				w.mu.Lock()
+				cur.premature = w.seq()
+				w.mu.Unlock()
+				cur.obj.Release()
+				cur = nil
 			case "r":
 				if cur == nil || len(cur.results) == 0 {
 					continue
@@ -853,7 +872,7 @@ func (w *c12sWorld) judge(o *vsched.Outcome) (finds []c12sFinding, classes []str
 	end := w.seq()
 	leftoverIgnored := false
 	for _, q := range w.reqs {
-		if last[q.obj] != q {
+		if last[q.obj] != q || q.premature > 0 {
 			continue
 		}
 		if q.releaseSeq > 0 {
@@ -887,6 +906,12 @@ func (w *c12sWorld) judge(o *vsched.Outcome) (finds []c12sFinding, classes []str
 	for _, q := range w.reqs {
 		cls := q.kind + ":"
 		k := q.kind
+		if q.premature > 0 {
+			// the client gave the request up (released before reading the
+			// result): nothing is demanded for it, only for later requests
+			classes = append(classes, k+":released-early")
+			continue
+		}
 		// ---- exactly one terminal result
 		if len(q.results) > 1 {
 			var cs []string
@@ -1033,7 +1058,9 @@ func (w *c12sWorld) judge(o *vsched.Outcome) (finds []c12sFinding, classes []str
 	for _, q := range w.reqs {
 		if p, ok := seenObj[q.obj]; ok {
 			reuse = true
-			if len(p.results) == 0 || p.releaseSeq == 0 || p.releaseSeq > q.accepted {
+			if p.premature > 0 {
+				// legal only if the result had already been delivered; not observable here
+			} else if len(p.results) == 0 || p.releaseSeq == 0 || p.releaseSeq > q.accepted {
 				bad(q.kind+"/pool-alias", "request #%d got a RequestState object still owned by request #%d (no result / not released)", q.id, p.id)
 			}
 		}
